@@ -121,11 +121,23 @@ def optStrJson : Option Str → Json
 
 def g (kvs : Dict) (k : String) : Json := (objGet kvs (s k)).getD .null
 
+/-- a field left out of the case is left to the `Message` constructor's default (the structure's) -/
+def optBool (dflt : Bool) : Json → Option Bool
+  | .bool b => some b
+  | .null => some dflt
+  | _ => none
+
 def rdMsg (j : Json) : Option Msg :=
   match j with
   | .obj kvs =>
-    match g kvs "body", g kvs "properties", g kvs "durable", g kvs "mandatory", rdExpiry (g kvs "expiration") with
-    | .str body, .obj props, .bool dur, .bool man, some ex =>
+    let d : Msg := { properties := [] }
+    let body : Option Str := match g kvs "body" with
+      | .str b => some b
+      | .null => some d.body
+      | _ => none
+    match body, g kvs "properties", optBool d.durable (g kvs "durable"), optBool d.mandatory (g kvs "mandatory"),
+        rdExpiry (g kvs "expiration") with
+    | some body, .obj props, some dur, some man, some ex =>
       let m : Msg := { body := body, properties := props, contentType := g kvs "content_type",
                        contentEncoding := g kvs "content_encoding", durable := dur, mandatory := man,
                        priority := g kvs "priority", correlationId := g kvs "correlation_id",
